@@ -316,23 +316,96 @@ theorem generate_value_float (tok : String) (x : Rat) (hn : isNumber tok = true)
 theorem number_is_not_option (tok : String) (hn : isNumber tok = true) : isOptionTok tok = false := by
   simp [isOptionTok, hn]
 
-/-- **generate_equiv_args_partial**: on the documented example and on the argument list of finding F3 the
-result obtained through `generate` + `merge_config` (the namespace) equals the one argparse produces from the
-arguments (kernel-evaluated for the regenerated evo_ape table).  The general statement — for every
-well-formed long-option list over the three tables, `mergeConfig defaults (generate toks)` ≈
-`argparseLong toks` — is NOT proved: `generate_groups` proves the `generate` half for all lists;
-the argparse half is tied differentially (harness: random typed lists, both sides against the real
-parsers).  Excluded token classes: string-typed options given a numeric-looking value, negative
-numbers in exponent notation (`-1e-3`, argparse rejects them), `nan`/`inf`/`_` spellings, short options. -/
-theorem generate_equiv_args_partial :
-    (∀ toks ∈ [["--downsample", "500", "--t_offset", "-0.5", "--n_to_align", "-1"],
-               ["--align", "--plot", "--plot_mode", "xz", "--verbose"],
-               ["--motion_filter", "0.5", "-3", "--t_max_diff", "1"]],
-      ∃ c, (generate toks).toOption = some c ∧
-        ∃ a, argparseLong Gen.apeOptions toks (defaultsOf Gen.apeOptions) Gen.apeExclusive = some a ∧
-          (∀ o ∈ Gen.apeOptions,
-            ((lookup (mergeConfig (defaultsOf Gen.apeOptions) c []).1 o.name).bind fun x =>
-              (lookup a o.name).map fun y => valApprox x y) = some true)) := by
+theorem optApprox_refl (x : Option JVal) : optApprox x x = true := by
+  cases x <;> simp [optApprox, valApprox_refl]
+
+/-- **generate_equiv_args**: for every well-formed long-option token list over an option table `T`
+(well-formedness is the decidable predicate `wfGroup`: every option is an entry of the table whose token
+`--name` is read as that option by both readers — `tokOk`, a closed fact checked for the regenerated
+tables below —, the arity of the option is respected — none for a flag, one for a scalar, `n ≥ 2` for
+`nargs=n` —, and every value token is in the modelled class of the option's type — `valOk`), and no two
+members of a mutually exclusive group given:
+`generate` succeeds, argparse accepts the list, and the namespace obtained from the defaults through
+`merge_config` with the generated config agrees entry by entry with the namespace argparse produces
+from the arguments (`≈`: equal, or an integer next to the same value as a float for float-typed options;
+integer-typed options are equal integers).  By induction over the option groups.
+Excluded token classes (outside `valOk`, see its definition): string options given a numeric-looking
+value, integer tokens not exactly representable given to float options, negative numbers in exponent
+notation and other tokens starting with `-` that are not `-d+` / `-d*.d+`, `nan`/`inf`/`_`/white-space
+spellings, values overflowing binary64, short options, `nargs=1`, `nargs='+'` (no such option exists). -/
+theorem generate_equiv_args (T : List Opt) (excl : List (List String)) (gs : List TGroup)
+    (hgs : ∀ g ∈ gs, wfGroup T g = true) (hex : exclFree excl (gs.flatMap TGroup.render) = true) :
+    ∃ c a, generate (gs.flatMap TGroup.render) = .ok c ∧
+      argparseLong T (gs.flatMap TGroup.render) (defaultsOf T) excl = some a ∧
+      ∀ k, optApprox (lookup (mergeConfig (defaultsOf T) c []).1 k) (lookup a k) = true := by
+  refine ⟨foldGroups genValue gs [], foldGroups argValue gs (defaultsOf T),
+    generateWith_groups T gs hgs [], argparseLong_groups T excl gs hgs hex _, fun k => ?_⟩
+  have hap := lastVal_approx T gs hgs k
+  have hc := lookup_foldGroups genValue gs k []
+  have ha := lookup_foldGroups argValue gs k (defaultsOf T)
+  have hnd : (keys (foldGroups genValue gs [])).Nodup := keys_nodup_foldGroups _ gs [] (by simp [keys])
+  simp only [mergeConfig]
+  rw [ha]
+  cases h1 : lastVal genValue gs k with
+  | some v =>
+    cases h2 : lastVal argValue gs k with
+    | some w =>
+      rw [h1] at hc
+      rw [merge_hard_second_wins _ _ k v hnd hc]
+      simpa [h1, h2] using hap
+    | none => simp [h1, h2, optApprox] at hap
+  | none =>
+    cases h2 : lastVal argValue gs k with
+    | some w => simp [h1, h2, optApprox] at hap
+    | none =>
+      rw [h1] at hc
+      have hnk : hasKey (foldGroups genValue gs []) k = false := by simp [hasKey, hc, lookup]
+      rw [merge_hard_not_in_second _ _ k hnk]
+      exact optApprox_refl _
+
+/-- the closed side condition of `generate_equiv_args` holds for every entry of the three regenerated tables -/
+theorem option_tokens_ok :
+    (∀ o ∈ Gen.apeOptions, tokOk Gen.apeOptions o = true) ∧
+    (∀ o ∈ Gen.rpeOptions, tokOk Gen.rpeOptions o = true) ∧
+    (∀ o ∈ Gen.trajOptions, tokOk Gen.trajOptions o = true) := by
+  decide +kernel
+
+/-- `generate_equiv_args` for the option tables of evo_ape, evo_rpe and evo_traj as they are now: the
+well-formedness condition reduces to "option of the table, arity respected, values in the modelled classes" -/
+theorem generate_equiv_args_evo (T : List Opt) (excl : List (List String))
+    (hT : (T = Gen.apeOptions ∧ excl = Gen.apeExclusive) ∨ (T = Gen.rpeOptions ∧ excl = Gen.rpeExclusive) ∨
+          (T = Gen.trajOptions ∧ excl = Gen.trajExclusive))
+    (gs : List TGroup)
+    (hgs : ∀ g ∈ gs, g.opt ∈ T ∧ arityOk g.opt g.vals = true ∧ g.vals.all (valOk g.opt) = true)
+    (hex : exclFree excl (gs.flatMap TGroup.render) = true) :
+    ∃ c a, generate (gs.flatMap TGroup.render) = .ok c ∧
+      argparseLong T (gs.flatMap TGroup.render) (defaultsOf T) excl = some a ∧
+      ∀ k, optApprox (lookup (mergeConfig (defaultsOf T) c []).1 k) (lookup a k) = true := by
+  apply generate_equiv_args T excl gs _ hex
+  intro g hg
+  obtain ⟨hm, har, hv⟩ := hgs g hg
+  have htok : tokOk T g.opt = true := by
+    rcases hT with ⟨h, _⟩ | ⟨h, _⟩ | ⟨h, _⟩ <;> subst h
+    · exact option_tokens_ok.1 _ hm
+    · exact option_tokens_ok.2.1 _ hm
+    · exact option_tokens_ok.2.2 _ hm
+  simp [wfGroup, htok, har, hv]
+
+/-- the argument list of finding F3, the documented example and a two-value option are well-formed
+(non-vacuity of `generate_equiv_args`; the entries of the table are looked up by name) -/
+def groupsOf (T : List Opt) (l : List (String × List String)) : List TGroup :=
+  l.filterMap fun p => (T.find? (fun o => o.name = p.1)).map fun o => ⟨o, p.2⟩
+
+theorem generate_equiv_args_instances :
+    (∀ l ∈ [[("downsample", ["500"]), ("t_offset", ["-0.5"]), ("n_to_align", ["-1"])],
+            [("align", []), ("plot", []), ("plot_mode", ["xz"]), ("verbose", [])],
+            [("motion_filter", ["0.5", "-3"]), ("t_max_diff", ["1"]), ("save_plot", ["out.pdf"])]],
+      (groupsOf Gen.apeOptions l).length = l.length ∧
+      (groupsOf Gen.apeOptions l).all (wfGroup Gen.apeOptions) = true ∧
+      exclFree Gen.apeExclusive ((groupsOf Gen.apeOptions l).flatMap TGroup.render) = true) ∧
+    -- outside the modelled classes: a numeric-looking string, an exponent-notation negative number
+    (groupsOf Gen.apeOptions [("save_plot", ["2024"])]).all (wfGroup Gen.apeOptions) = false ∧
+    (groupsOf Gen.apeOptions [("t_offset", ["-1e-3"])]).all (wfGroup Gen.apeOptions) = false := by
   decide +kernel
 
 /-! ## the pinned code before fix 70efe12 (finding F3): kernel-checked counterexamples -/
